@@ -75,6 +75,23 @@ HISTORY = {
                "the ODT writer wraps the first row of every other table in table:table-header-rows"),
     "C13-C2": ("C13", "ODS sheet whose right-most column holds only falsy typed values (0, FALSE, empty) in every row", "missed",
                "header-less typed grids (DocGen2 Kind=typedgrid, Doc!TypedGridOK) for ODS"),
+    "C05-A2": ("C05", "round trip of a plain-text result (FileMetadataInterface dropped from the type registry)", "caught", ""),
+    "C05-B2": ("C05", "XLSX time-of-day cell below the header row", "caught", ""),
+    "C06-A2": ("C06", "ODS sheet whose text starts / ends with white space, observed between two to_json() calls", "missed",
+               "generated ODS / XLS documents carry cells with leading and trailing blanks"),
+    "C06-B2": ("C06", "ODF formula with >= 2 distinct annotations + different PYTHONHASHSEED", "missed",
+               "an OpenDocument Formula writer (MathML with three annotations) and .xls were added to the C06 document set"),
+    "C06-C2": ("C06", "buffer with ZIP magic but no end-of-central-directory record (truncated archive)", "missed",
+               "input purity is now also checked on damaged variants (truncations, zeroed tail, flipped byte) of every document"),
+    "C07-A2": ("C07", "path ending in .tar.bz2 (compound table value without extractor)", "caught", ""),
+    "C07-B2": ("C07", ".pps alias removed: routing depends on the host MIME database", "caught", ""),
+    "C07-C2": ("C07", "read_file on a symbolic link whose target has another / no extension", "missed",
+               "every fourth file of the read_file phase is a symlink into a blob store with another extension"),
+    "C08-A2": ("C08", "PDF with empty user password AND empty owner password (decrypt('') returns OWNER_PASSWORD)", "missed",
+               "(pending: builder asked to add the owner-password dimension)"),
+    "C08-B2": ("C08", "OLE-wrapped OOXML with EncryptedPackage but no EncryptionInfo (IRM layout)", "caught", ""),
+    "C16-A2": ("C16", "mbox part that is inline-with-name, named only via Content-Type, or attachment without name", "caught", ""),
+    "C16-B2": ("C16", "single-part mbox message in a non-UTF-8 charset", "caught", ""),
 }
 
 
